@@ -65,6 +65,7 @@ type Obligation struct {
 	Query   string
 	Known   string
 	Candidate bool // the model comes from the quantifier-free relaxation
+	Block   *ssa.BasicBlock
 }
 
 type VC struct {
@@ -108,6 +109,8 @@ type VC struct {
 	defers   []*ssa.Defer
 	pendingWf [][2]string
 	recDefs  map[string]*recDef
+	lineBlock []int
+	anc      map[*ssa.BasicBlock]map[int]bool
 }
 
 func newVC(p *Program, fn *ssa.Function) *VC {
@@ -122,7 +125,35 @@ func newVC(p *Program, fn *ssa.Function) *VC {
 	return vc
 }
 
-func (vc *VC) emit(s string) { vc.lines = append(vc.lines, s) }
+func (vc *VC) emit(s string) {
+	vc.lines = append(vc.lines, s)
+	bi := -1
+	if vc.curBlock != nil {
+		bi = vc.curBlock.Index
+	}
+	vc.lineBlock = append(vc.lineBlock, bi)
+}
+
+// ancestors of block b in the loop-cut CFG (blocks from which b is reachable), including b
+func (vc *VC) ancestors(b *ssa.BasicBlock) map[int]bool {
+	if vc.anc == nil {
+		vc.anc = map[*ssa.BasicBlock]map[int]bool{}
+	}
+	if a, ok := vc.anc[b]; ok {
+		return a
+	}
+	a := map[int]bool{b.Index: true}
+	vc.anc[b] = a
+	for _, p := range b.Preds {
+		if b.Dominates(p) {
+			continue // back edge
+		}
+		for k := range vc.ancestors(p) {
+			a[k] = true
+		}
+	}
+	return a
+}
 
 func (vc *VC) freshName(prefix string) string {
 	vc.nfresh++
@@ -492,7 +523,7 @@ func (vc *VC) oblige(kind, label string, tags []string, reach, goal, src string)
 	if vc.curPos.IsValid() {
 		pos = vc.prog.prog.Fset.Position(vc.curPos)
 	}
-	o := &Obligation{Name: name, Kind: kind, Tags: tags, Prefix: len(vc.lines), Goal: implies(reach, goal), Src: src, Pos: pos, Fn: vc.key}
+	o := &Obligation{Name: name, Kind: kind, Tags: tags, Prefix: len(vc.lines), Goal: implies(reach, goal), Src: src, Pos: pos, Fn: vc.key, Block: vc.curBlock}
 	vc.obls = append(vc.obls, o)
 	return o
 }
@@ -550,7 +581,15 @@ func (vc *VC) query(o *Obligation, produceModel bool) string {
 		b.WriteString("(set-option :produce-models true)\n")
 	}
 	b.WriteString(vc.u.preamble())
-	for _, l := range vc.lines[:o.Prefix] {
+	var anc map[int]bool
+	if o.Block != nil {
+		anc = vc.ancestors(o.Block)
+	}
+	for i, l := range vc.lines[:o.Prefix] {
+		// slice: only lines emitted while executing blocks from which the obligation's block is reachable
+		if anc != nil && vc.lineBlock[i] >= 0 && !anc[vc.lineBlock[i]] {
+			continue
+		}
 		b.WriteString(l)
 		b.WriteString("\n")
 	}
